@@ -186,6 +186,9 @@ func valueMentionsField(v ssa.Value, f string, depth int) bool {
 			}
 		}
 	case *ssa.UnOp:
+		if x.Op == token.SUB {
+			return valueMentionsField(x.X, f, depth+1)
+		}
 		if a, ok := x.X.(*ssa.Alloc); ok {
 			for _, ref := range *a.Referrers() {
 				if st, ok := ref.(*ssa.Store); ok && st.Addr == a && valueMentionsField(st.Val, f, depth+1) {
@@ -276,6 +279,10 @@ func checkHMACVerify(c *Ctx, rule string) {
 			a, ok := edgeAtom(Edge{b, i})
 			if !ok || namedName(a.X.Type()) != "Duration" {
 				continue
+			}
+			// `-tol <= d` / `tol >= d`: the tolerance on the left — same test, sides swapped
+			if valueMentionsField(a.X, "Tolerance", 0) && !valueMentionsField(a.Y, "Tolerance", 0) && !isIntConst(a.Y, 0) {
+				a = Atom{a.Y, flipSides(a.Op), a.X}
 			}
 			yMentions := valueMentionsField(a.Y, "Tolerance", 0)
 			if u, ok := a.Y.(*ssa.UnOp); ok && u.Op == token.SUB && valueMentionsField(u.X, "Tolerance", 0) {
